@@ -311,8 +311,10 @@ func (fc *FnCtx) emitAxioms() {
 			fc.pkg = fc.eng.pkgs[lm.PkgPath]
 		}
 		var t Term
-		if lm.Axiom {
+		if len(lm.Params) == 0 {
 			t = fc.evalBool(lm.Clause.Expr, &Env{fc: fc, vars: map[string]Val{}, cur: st, old: st})
+		} else if lm.Axiom {
+			continue // parameterised axioms are only used through explicit `use` instances
 		} else {
 			t = fc.lemmaAsFact(lm)
 		}
